@@ -168,8 +168,10 @@ def gen_cases(rng, tier):
             cur = [o["value"] for o in ops if o["op"] == "set_value" and o.get("name") == pp_["name"]]
             v1 = cur[-1] if cur else pp_["value"]
             scen = [{"op": rng.choice(["sample", "solve"])},
-                    {"op": "set_value", "name": pp_["name"], "value": rand_value(rng, pp_, curN)},
-                    {"op": "set_value", "name": pp_["name"], "value": v1}, {"op": "sample"}]
+                    {"op": "set_value", "name": pp_["name"], "value": rand_value(rng, pp_, curN), "inplace": True},
+                    {"op": rng.choice(["sample", "value"])},
+                    {"op": "set_value", "name": pp_["name"], "value": rand_value(rng, pp_, curN), "inplace": True},
+                    {"op": "set_value", "name": pp_["name"], "value": v1, "inplace": rng.random() < 0.5}, {"op": "sample"}]
             ops = ops + scen
         if i % 5 == 4 and not any(o["op"] == "method" for o in ops):
             # scenario family: values given to a concatenation of parameters on the transcribed OCP must survive the
